@@ -156,6 +156,7 @@ PlacedInPool(S, p) == Flatten([i \in 1..Len(PoolWorkers(S, p)) |-> S.cl[PoolWork
 AllPlaced(S) == Flatten([k \in 1..Len(S.cl) |-> S.cl[k].inpool])
 NPools(W) == Len(W.pools)
 
+ProfEntries(S, k) == S.cl[k].pend \o S.cl[k].avl      \* profile entries <<profile, remaining load time, demand, allocations>>
 \* ledger value of worker k (allocation lists keyed by occupant position)
 WLedger(S, k) == [av |-> S.cl[k].av, al |-> [c \in {"x"} |-> <<>>]]
 BatchOn(S, k, bid) == bid # 0 /\ \E i \in 1..Len(S.cl[k].occ) : S.cl[k].occ[i].sd.bid = bid
@@ -240,7 +241,9 @@ DoStep(S, size) ==
                  [S.cl[k] EXCEPT
                     !.pend = [i \in 1..Len(SelectSeq(S.cl[k].pend, LAMBDA x : x[2] - size > 0)) |->
                                  LET x == SelectSeq(S.cl[k].pend, LAMBDA y : y[2] - size > 0)[i] IN <<x[1], x[2] - size, x[3], x[4]>>],
-                    !.avl = S.cl[k].avl \o [i \in 1..Len(SelectSeq(S.cl[k].pend, LAMBDA x : x[2] - size <= 0)) |->
+                    !.avl = SelectSeq(S.cl[k].avl, LAMBDA a : ~\E i \in 1..Len(S.cl[k].pend) :
+                                                S.cl[k].pend[i][1] = a[1] /\ S.cl[k].pend[i][2] - size <= 0)
+                            \o [i \in 1..Len(SelectSeq(S.cl[k].pend, LAMBDA x : x[2] - size <= 0)) |->
                                  LET x == SelectSeq(S.cl[k].pend, LAMBDA y : y[2] - size <= 0)[i] IN <<x[1], 0, x[3], x[4]>>]]]
     IN  [QAddAll([S EXCEPT !.ts = ts2, !.cl = cl2], evs) EXCEPT !.now = S.now + size]
 
@@ -520,8 +523,17 @@ LoadOn(W, S, ks, p, sd) ==        \* returns [S, err]
              L0 == [av |-> S.cl[k].av, al |-> [c \in {"n"} |-> <<>>]]
          IN  IF ~CanAllocMulti(Insts(W, S, k), L0, sd.dem) THEN Err(S, "load_profile_does_not_fit")
              ELSE LET L1 == MultiAlloc(Insts(W, S, k), L0, sd.dem, "n", 1)
+                      \* Worker.load_profile allocates under the key `profile` and records the strategy: a profile that is
+                      \* already pending / available keeps its earlier allocations under the same key (released together
+                      \* by the eviction); the recorded pending strategy is the latest one
+                      ents == ProfEntries(S, k)
+                      prior == IF \E i \in 1..Len(ents) : ents[i][1] = p
+                               THEN ents[CHOOSE i \in 1..Len(ents) : ents[i][1] = p][4] ELSE <<>>
+                      full == prior \o L1.al["n"]
                       others == SelectSeq(S.cl[k].pend, LAMBDA x : x[1] # p)
-                      S1 == [S EXCEPT !.cl[k].av = L1.av, !.cl[k].pend = Append(others, <<p, sd.rt, sd.dem, L1.al["n"]>>)]
+                      avl2 == [i \in 1..Len(S.cl[k].avl) |-> IF S.cl[k].avl[i][1] = p
+                                                               THEN <<p, S.cl[k].avl[i][2], S.cl[k].avl[i][3], full>> ELSE S.cl[k].avl[i]]
+                      S1 == [S EXCEPT !.cl[k].av = L1.av, !.cl[k].pend = Append(others, <<p, sd.rt, sd.dem, full>>), !.cl[k].avl = avl2]
                   IN  LoadOn(W, S1, Tail(ks), p, sd)
 HLoadProfile(W, S, e) == LoadOn(W, S, ProfWorkers(S, e.pl), e.pr, e.pl.sd)
 
@@ -535,9 +547,12 @@ EvictOn(S, ks, p) ==
                          ELSE S.cl[k].pend[CHOOSE i \in 1..Len(S.cl[k].pend) : S.cl[k].pend[i][1] = p]
                   RECURSIVE GiveP(_, _)
                   GiveP(av, n) == IF n > Len(ent[4]) THEN av ELSE GiveP([av EXCEPT ![ent[4][n][1]] = @ + ent[4][n][2]], n + 1)
+                  \* deallocate(profile) releases everything recorded under the profile; an entry of the same profile
+                  \* that remains (loaded again while available) holds nothing afterwards
+                  Strip(es) == [i \in 1..Len(es) |-> IF es[i][1] = p THEN <<p, es[i][2], es[i][3], <<>> >> ELSE es[i]]
                   S1 == [S EXCEPT !.cl[k].av = GiveP(@, 1),
                                   !.cl[k].avl = IF inAvl THEN SelectSeq(@, LAMBDA x : x[1] # p) ELSE @,
-                                  !.cl[k].pend = IF inAvl THEN @ ELSE SelectSeq(@, LAMBDA x : x[1] # p)]
+                                  !.cl[k].pend = IF inAvl THEN Strip(@) ELSE SelectSeq(@, LAMBDA x : x[1] # p)]
               IN  EvictOn(S1, Tail(ks), p)
 HEvictProfile(W, S, e) == EvictOn(S, ProfWorkers(S, e.pl), e.pr)
 
@@ -600,7 +615,27 @@ CapQ(W, S, k, n) == TotalQ(Insts(W, S, k), [name |-> n, id |-> "any"])
 AvQ(W, S, k, n) == AvailQ(Insts(W, S, k), S.cl[k].av, [name |-> n, id |-> "any"])
 
 C01_NoOversub(W, S) == \A k \in 1..Len(S.cl) : \A n \in WNames(W, S, k) : WDemand(S, k, n) <= CapQ(W, S, k, n)
-C01_LedgerAgrees(W, S) == \A k \in 1..Len(S.cl) : \A n \in WNames(W, S, k) : AvQ(W, S, k, n) = CapQ(W, S, k, n) - WDemand(S, k, n)
+\* what the occupants of worker k HOLD of resource name n (their allocation lists; a batch and a profile count once:
+\* every entry of a profile carries the whole allocation list recorded under that profile)
+AlQ(W, S, k, al, n) == SumTo([j \in 1..Len(al) |-> IF al[j][1] >= 1 /\ al[j][1] <= Len(Insts(W, S, k)) /\ Insts(W, S, k)[al[j][1]].name = n
+                                                    THEN al[j][2] ELSE 0], Len(al))
+ProfFirst(S, k, i) == ~\E j \in 1..(i - 1) : ProfEntries(S, k)[j][1] = ProfEntries(S, k)[i][1]
+WHeld(W, S, k, n) ==
+    SumTo([i \in 1..Len(S.cl[k].occ) |-> IF OccCounts(S, k, i) THEN AlQ(W, S, k, S.cl[k].occ[i].al, n) ELSE 0], Len(S.cl[k].occ))
+    + SumTo([i \in 1..Len(ProfEntries(S, k)) |-> IF ProfFirst(S, k, i) THEN AlQ(W, S, k, ProfEntries(S, k)[i][4], n) ELSE 0], Len(ProfEntries(S, k)))
+\* the ledger agrees with the occupants: available = capacity - what the occupants hold
+C01_LedgerAgrees(W, S) == \A k \in 1..Len(S.cl) : \A n \in WNames(W, S, k) : AvQ(W, S, k, n) = CapQ(W, S, k, n) - WHeld(W, S, k, n)
+\* every occupant's demand is backed by what it holds: a task (batch) holds exactly the demand of its strategy, a
+\* profile at least the demands of its recorded loading strategies (pinned convention: loading a profile again while it
+\* is pending / available allocates again under the same key and records the latest strategy; all of it is released by
+\* the eviction)
+C01_Backed(W, S) ==
+    \A k \in 1..Len(S.cl) : \A n \in WNames(W, S, k) :
+        /\ \A i \in 1..Len(S.cl[k].occ) : AlQ(W, S, k, S.cl[k].occ[i].al, n) = DemQ(S.cl[k].occ[i].sd, n)
+        /\ \A i \in 1..Len(ProfEntries(S, k)) :
+              AlQ(W, S, k, ProfEntries(S, k)[i][4], n) >=
+                SumTo([j \in 1..Len(ProfEntries(S, k)) |-> IF ProfEntries(S, k)[j][1] = ProfEntries(S, k)[i][1]
+                                                             THEN ProfQ(ProfEntries(S, k)[j], n) ELSE 0], Len(ProfEntries(S, k)))
 C01_SingleWorker(S) == \A t \in 1..NT(S) : Cardinality({k \in 1..Len(S.cl) : \E i \in 1..Len(S.cl[k].occ) : S.cl[k].occ[i].t = t}) <= 1
 C01_AvRange(W, S) == \A k \in 1..Len(S.cl) : \A i \in 1..Len(S.cl[k].av) : S.cl[k].av[i] >= 0 /\ S.cl[k].av[i] <= Insts(W, S, k)[i].cap
 \* C04 (simulation part): no occupant => worker back at full capacity
